@@ -16,6 +16,11 @@ import (
 //  c19_wait_for_index_one_section: meta.Client.waitForIndex reads cacheData.Index and the
 //     `changed` channel itself, under exactly one lock acquisition per iteration (otherwise a
 //     publication between the two reads is a lost wake-up: wait_for_index_two_sections_refuted).
+//  c19_cache_init_store_before_flag: tsm1 Cache.init changes initializedCount only inside its
+//     c.mu.Lock section and only after it has assigned c.store there (its lock-free part merely
+//     loads the flag), and Cache.Free changes both inside one c.mu.Lock section: a writer that
+//     finds the flag set then finds the ring (otherwise a concurrent first write goes into
+//     emptyStore and is acknowledged: cache_init_flag_first_refuted).
 //  c01_snapshot_begin_one_section: tsm1 Engine.writeSnapshot closes the WAL segment, lists the
 //     closed segments and takes the cache snapshot inside ONE function literal that holds
 //     e.mu.Lock (step SnapBegin of Shard/Engine.v); a write acknowledged between the cache
@@ -77,6 +82,47 @@ func init() {
 			return true
 		})
 		writeBool(b, "c01_snapshot_begin_one_section", one)
+
+		// Cache.init / Cache.Free: the sequence of lock, store assignment, flag write, unlock
+		cacheSeq := func(name string) string {
+			fd := t.funcDecl(name, "Cache")
+			var seq []string
+			ast.Inspect(fd, func(n ast.Node) bool {
+				switch x := n.(type) {
+				case *ast.CallExpr:
+					switch f := c17ExprString(x.Fun); f {
+					case "c.mu.Lock":
+						seq = append(seq, "lock")
+					case "c.mu.Unlock":
+						seq = append(seq, "unlock")
+					case "atomic.CompareAndSwapUint32", "atomic.StoreUint32", "atomic.AddUint32", "atomic.SwapUint32":
+						if len(x.Args) > 0 && strings.HasSuffix(c17ExprString(x.Args[0]), "c.initializedCount") {
+							seq = append(seq, "flag")
+						}
+					}
+				case *ast.AssignStmt:
+					for _, l := range x.Lhs {
+						switch c17ExprString(l) {
+						case "c.store":
+							seq = append(seq, "store")
+						case "c.initializedCount":
+							seq = append(seq, "flag")
+						}
+					}
+				case *ast.IncDecStmt:
+					if c17ExprString(x.X) == "c.initializedCount" {
+						seq = append(seq, "flag")
+					}
+				case *ast.DeferStmt:
+					seq = append(seq, "defer")
+				}
+				return true
+			})
+			return strings.Join(seq, ";")
+		}
+		initSeq, freeSeq := cacheSeq("init"), cacheSeq("Free")
+		writeBool(b, "c19_cache_init_store_before_flag", initSeq == "lock;store;flag;unlock" &&
+			(freeSeq == "lock;store;flag;unlock" || freeSeq == "lock;flag;store;unlock"))
 
 		wc := t.funcDecl("writeSnapshotAndCommit", "Engine")
 		var order []string
